@@ -175,6 +175,16 @@ def nested_stage(chk, pid, tier, seed, names, check_c07):
             ops.append(plan() if rng.random() < 0.6 else rng.choice(["op vunplanr %d", "op unplanr %d"]) % rng.randrange(1 << 20))
         ops.append("op snapall")
         cases.append({"id": "i%d" % i, "model": m, "ops": ops})
+    # multi-stop units given as initial stops with the fixed flag on SOME of their stops only, then vehicle / unit un-plans
+    for i in range(max(40, n // 3)):
+        m = G.gen_model(rng, "small", {"groups": False, "initial": True, "precedence": True, "fixed_p": 1.0, "windows": rng.random() < 0.3,
+                                        "capacity": rng.random() < 0.3})
+        ops = []
+        for _ in range(rng.randint(1, 5)):
+            ops.append(rng.choice(["op vunplanr %d", "op vunplanr %d", "op unplanr %d"]) % rng.randrange(1 << 20) if rng.random() < 0.6
+                       else G.gen_ops(rng, m, 1, "plan_only")[0])
+        ops.append("op snapall")
+        cases.append({"id": "f%d" % i, "model": m, "ops": ops})
     n = len(cases)
     res, st = E.run_cases(cases, "%s_nested_%s" % (pid.lower(), tier), timeout=3000)
     # implementation and model are compared up to AND INCLUDING the first step that corrupts the bookkeeping of nested
@@ -282,6 +292,7 @@ def run(pid, tier, seed, oracle_names, title, feats=None, check_c07=False, extra
         chk.proofs("Order")     # order and direct adjacency of a unit's stops are kept by order-respecting moves (and by the generators' moves)
     if pid in ("C03", "C05", "C07", "C08"):
         chk.proofs("Units")     # nested units: conservative extension, defect witnesses N1/N2/N4/N7, units-move rollback
+        chk.proofs("FixedInv")  # inputs with initial / fixed stops (mixed flags included), no groups: fixed units never leave their vehicle, never split; bookkeeping consistent on every history
         chk.proofs("GroupInv")  # positive counterpart: with groups and no initial stops the collections/scores/output stay consistent under succeeding group-level operations
     nh, ns = (150, 25) if tier == "quick" else (4000, 600)
     nops = 30 if tier == "quick" else 60
